@@ -4,6 +4,7 @@ import OV.Lemmas.C10Eval
 import OV.Lemmas.C10Fallback
 import OV.Lemmas.C10Names
 import OV.Lemmas.C10Imports
+import OV.Lemmas.C10Meta
 /-!
 # C10 — opset version conversion yields a valid, equivalent model at the target version
 
@@ -299,6 +300,67 @@ theorem d13a_fixed :
   rw [List.mem_singleton.mp hn]
   exact ⟨⟨fun _ => rfl, fun _ => rfl, by decide⟩, fun h => absurd rfl h, by simp [d13aModel], by simp [d13aModel]⟩
 
+/-- **When an adapter raises.**  Exactly for a GroupNormalization at the step 20→21 that lacks one of its three
+inputs or its `num_groups` attribute — nothing else, no other operator, no other step. -/
+theorem adapter_raises_iff (op : Op) (v : Nat) :
+    adapt op v = .raised ↔
+      ∃ n, op = .groupNorm n ∧ v = 20 ∧ ((n.hasX && n.hasScale && n.hasBias) = false ∨ n.groups = none) :=
+  adapt_raised_iff op v
+
+/-- **`convert_consistent`, `ir.Model` entry, structural hypothesis only.**  "No adapter raises" is replaced by what it
+amounts to: every GroupNormalization node of the model has its three inputs and `num_groups` (`WellFormedGN`; the rest
+of `ShapeModel` says the model is written for `s`, has no reference attributes, control-flow nodes own the subgraphs).
+For every such model, target, `fallback` and C-API behaviour the conclusion of `convert_consistent_ir` holds. -/
+theorem convert_consistent_ir_wf (s t : Nat) (fb : Fallback) {d : Nat} (capi : CApi (NodeD d)) (m0 m : Model (NodeD d))
+    (hin : inlineModel m0 = .ok m) (h : ShapeModel WellFormedGN s m) :
+    ((convertVersionApi .ir fb t capi m0).2 = none ∧
+      (convertVersionApi .ir fb t capi m0).1.declared = some t ∧
+      (convertVersionApi .ir fb t capi m0).1.aionnx = none ∧
+      (convertVersionApi .ir fb t capi m0).1.funcs = [] ∧
+      AllAt t (convertVersionApi .ir fb t capi m0).1.nodes)
+    ∨ (convertVersionApi .ir fb t capi m0).1 = m :=
+  convert_consistent_ir s t fb capi m0 m hin h.selfConsistent
+
+/-- The same for the `ModelProto` entry. -/
+theorem convert_consistent_proto_wf (s t : Nat) (fb : Fallback) {d : Nat} (capi : CApi (NodeD d)) (m0 m : Model (NodeD d))
+    (hin : inlineModel (eraseVersions m0) = .ok m) (h : ShapeModel WellFormedGN s m) :
+    ((convertVersionApi .proto fb t capi m0).2 = none ∧
+      (convertVersionApi .proto fb t capi m0).1.declared = some t ∧
+      (convertVersionApi .proto fb t capi m0).1.aionnx = none ∧
+      (convertVersionApi .proto fb t capi m0).1.funcs = [])
+    ∨ (convertVersionApi .proto fb t capi m0).1 = eraseVersions m0
+    ∨ (convertVersionApi .proto fb t capi m0).1 = eraseVersions m :=
+  convert_consistent_proto s t fb capi m0 m hin h.selfConsistent
+
+/-- opset 18: `GroupNormalization(x, scale)` — the required `bias` input is missing -/
+def gnNoBiasModel : Model (NodeD 0) :=
+  { declared := some 18, aionnx := none, funcs := [], inputs := ["x", "s"], inits := [],
+    nodes := [{ leaf := { dflt := true, version := none, refAttr := false,
+                          op := .groupNorm { gnStatic with hasBias := false } },
+                bodies := [] }] }
+
+/-- **The remaining hypothesis is forced.**  A GroupNormalization without `bias` (not a valid ONNX node) converted
+18→21: the adapter raises at step 20→21, the error is caught, no exception escapes, the model declares 21 and the node
+is left stamped 20 — the behaviour `test_version_groupnorm_no_bias` of the unedited suite pins. -/
+theorem convert_consistent_invalid_gn_refuted :
+    (nativeConvert 21 gnNoBiasModel).2 = none ∧ (nativeConvert 21 gnNoBiasModel).1.declared = some 21 ∧
+    (nativeConvert 21 gnNoBiasModel).1.nodes.map (·.leaf.version) = [some 20] ∧
+    ¬ AllAt 21 (nativeConvert 21 gnNoBiasModel).1.nodes ∧ (nativeConvert 21 gnNoBiasModel).1 ≠ gnNoBiasModel := by
+  refine ⟨by decide, by decide, by decide, ?_, by decide⟩
+  unfold AllAt
+  decide
+
+/-- (non-vacuity) the D13a witness model is a `ShapeModel WellFormedGN`. -/
+example : ShapeModel WellFormedGN 20 d13aModel := by
+  refine ⟨rfl, rfl, rfl, ?_⟩
+  intro n hn
+  rw [List.mem_singleton.mp hn]
+  refine ⟨⟨fun _ => rfl, fun _ => rfl, fun _ => ?_⟩, fun h => absurd rfl h, by simp, by simp⟩
+  intro g hg
+  injection hg with hg
+  subst hg
+  exact ⟨⟨rfl, rfl, rfl⟩, by simp [gnStatic]⟩
+
 /-! ## Evaluation level (straight-line graphs) -/
 
 /-- **`convert_evalGraph`** (no hypothesis on the adapters since 090a933: validity of the source suffices).
@@ -413,6 +475,25 @@ theorem fallback_failure_restores (orig : Fallback.G) (hinj : NameInj orig.inits
 /-- graph inputs `x, w`; initializer `w` with 1200 elements (an overridable default above the stripping limit) -/
 def fallbackWitness : Fallback.G := { inputs := ["x", "w"], inits := [{ name := "w", size := 1200, val := 7 }] }
 
+open OV.C10.Fallback in
+/-- **The distinct-names assumption is an invariant of the data structure.**  Every initializer dict that dict
+assignments can build from the empty dict — any sequence of registrations, repeated names included — has pairwise
+different keys. -/
+theorem dict_keys_distinct (l : List Init) : NameInj (registerAll [] l) :=
+  (registerAll_distinct l Distinct.nil).nameInj
+
+open OV.C10.Fallback in
+/-- **`initializers_kept` on the fallback route, no assumption on names**: for every graph whose initializer dict was
+built by registrations (every dict is), success and failure of the C API both leave exactly the original
+(name, size, value) entries and the original inputs. -/
+theorem fallback_initializers_kept_any (inputs : List String) (l : List Init) (conv : Fallback.G)
+    (hc : CapiKeeps (prepare { inputs := inputs, inits := registerAll [] l }) conv) :
+    ((∀ i, i ∈ (afterSuccess { inputs := inputs, inits := registerAll [] l } conv).inits ↔ i ∈ registerAll [] l) ∧
+      (afterSuccess { inputs := inputs, inits := registerAll [] l } conv).inputs = inputs) ∧
+    ((∀ i, i ∈ (afterCall { inputs := inputs, inits := registerAll [] l }).inits ↔ i ∈ registerAll [] l) ∧
+      (afterCall { inputs := inputs, inits := registerAll [] l }).inputs = inputs) :=
+  ⟨fallback_initializers_kept _ conv (dict_keys_distinct l) hc, fallback_failure_restores _ (dict_keys_distinct l)⟩
+
 /-- (non-vacuity) the witness graph has distinct initializer names -/
 example : Fallback.NameInj fallbackWitness.inits := by
   intro i j hi hj _
@@ -426,6 +507,86 @@ theorem fallback_appended_only_refuted :
     recoverLoopAppendedOnly fallbackWitness (prepare fallbackWitness) = [] ∧
     recoverLoop fallbackWitness.inits (prepare fallbackWitness) = fallbackWitness.inits :=
   ⟨⟨rfl, rfl⟩, by decide, by decide⟩
+
+/-! ### `_restore_metadata` on the fallback route: frame theorems -/
+
+open OV.C10.Meta in
+/-- **Matched node.**  If the converted node is named `nm`, exactly one original node carries that name (`lookupNode`)
+and it has the same operator and domain, then after `_restore_metadata` the node keeps name, operator and domain, every
+metadata key reads as the C API left it if it left one and otherwise as in the original node (so no original entry is
+lost and nothing the C API kept is overwritten), and an empty doc string is filled from the original. -/
+theorem restore_node_matched (orig : List N) (n o : N) (nm : String) (hn : n.name = some nm)
+    (hl : lookupNode orig nm = some o) (hop : o.op = n.op ∧ o.domain = n.domain) :
+    (restoreNode orig n).name = n.name ∧ (restoreNode orig n).op = n.op ∧ (restoreNode orig n).domain = n.domain ∧
+    (∀ k, (restoreNode orig n).props.get k = (n.props.get k).or (o.props.get k)) ∧
+    (restoreNode orig n).doc = mergeDoc n.doc o.doc := by
+  simp only [restoreNode, hn, hl, hop.1, hop.2, beq_self_eq_true, Bool.and_self, if_true]
+  exact ⟨trivial, trivial, trivial, fun k => merge_get _ _ _, trivial⟩
+
+open OV.C10.Meta in
+/-- **What is not restored, exactly.**  A converted node without a name, or whose name no original node carries, or
+whose name two or more original nodes carry, or whose unique namesake has another operator or domain (the C API
+created or rewrote it) is left exactly as the C API returned it. -/
+theorem restore_node_unmatched (orig : List N) (n : N)
+    (h : n.name = none ∨ ∃ nm, n.name = some nm ∧
+      (lookupNode orig nm = none ∨ ∃ o, lookupNode orig nm = some o ∧ ¬ (o.op = n.op ∧ o.domain = n.domain))) :
+    restoreNode orig n = n := by
+  rcases h with h | ⟨nm, hn, h⟩
+  · simp [restoreNode, h]
+  · rcases h with h | ⟨o, ho, hne⟩
+    · simp [restoreNode, hn, h]
+    · simp only [restoreNode, hn, ho]
+      have : (o.op == n.op && o.domain == n.domain) = false := by
+        cases hq : (o.op == n.op && o.domain == n.domain) with
+        | false => rfl
+        | true => simp at hq; exact absurd hq hne
+      simp [this]
+
+open OV.C10.Meta in
+/-- `lookupNode` finds a node exactly when one original node, and no second one, carries the name. -/
+theorem lookupNode_some_iff (orig : List N) (nm : String) (o : N) :
+    lookupNode orig nm = some o ↔ orig.filter (fun x => x.name == some nm) = [o] := by
+  unfold lookupNode
+  constructor
+  · intro h
+    split at h
+    · injection h with h; subst h; assumption
+    · cases h
+  · intro h; rw [h]
+
+open OV.C10.Meta in
+/-- **Values** are matched by name alone (the last original definition of the name): metadata and doc string follow
+the same law; a value whose name the original graph does not define is untouched. -/
+theorem restore_value_frame (orig : List V) (v : V) :
+    (∀ o, lookupValue orig v.name = some o →
+      (restoreValue orig v).name = v.name ∧ (∀ k, (restoreValue orig v).props.get k = (v.props.get k).or (o.props.get k)) ∧
+      (restoreValue orig v).doc = mergeDoc v.doc o.doc) ∧
+    (lookupValue orig v.name = none → restoreValue orig v = v) := by
+  refine ⟨fun o ho => ?_, fun h => by simp [restoreValue, h]⟩
+  simp only [restoreValue, ho]
+  exact ⟨trivial, fun k => merge_get _ _ _, trivial⟩
+
+open OV.C10.Meta in
+/-- **Graph level**: the same law for `graph.metadata_props` and `graph.doc_string`; node and value lists keep their
+length and order (every entry is the restored image of the entry at the same position).  Metadata of nested subgraph
+objects themselves is not part of `_restore_metadata` and is not restored. -/
+theorem restore_graph_frame (orig conv : Gr) :
+    (∀ k, (restore orig conv).props.get k = (conv.props.get k).or (orig.props.get k)) ∧
+    (restore orig conv).doc = mergeDoc conv.doc orig.doc ∧
+    (restore orig conv).nodes = conv.nodes.map (restoreNode orig.nodes) ∧
+    (restore orig conv).values = conv.values.map (restoreValue orig.values) :=
+  ⟨fun k => merge_get _ _ _, rfl, rfl, rfl⟩
+
+open OV.C10.Meta in
+/-- (non-vacuity and the C15-FALLBACK witness in the model) the C API returned `relu0` without metadata: it gets the
+original entry back; a node it created (`cast1`) and a node whose name was used twice stay as returned. -/
+example :
+    let orig : List N := [{ name := some "relu0", op := "Relu", domain := "", doc := "", props := [("nk", "nv")] },
+                          { name := some "dup", op := "Neg", domain := "", doc := "", props := [("a", "1")] },
+                          { name := some "dup", op := "Neg", domain := "", doc := "", props := [("a", "2")] }]
+    (restoreNode orig { name := some "relu0", op := "Relu", domain := "", doc := "", props := [] }).props = [("nk", "nv")] ∧
+    (restoreNode orig { name := some "cast1", op := "Cast", domain := "", doc := "", props := [] }).props = [] ∧
+    (restoreNode orig { name := some "dup", op := "Neg", domain := "", doc := "", props := [] }).props = [] := by decide
 
 /-! ### Names of adapter-created values (`_collect_value_names`, `_name_new_values`) -/
 
